@@ -44,6 +44,26 @@ func lookupIntrinsic(ex *Exec, fn *ssa.Function) intrinsic {
 			pkg = n.Obj().Pkg().Path()
 		}
 	}
+	if strings.HasPrefix(name, "unique.Make[") {
+		// unique.Make(v): the canonical handle of v. Values made here are canonicalised by structural equality
+		// against the values made earlier on this path (the comparison must be decidable without the solver).
+		return func(ex *Exec, fn *ssa.Function, args []Value) Value {
+			for _, u := range ex.uniques {
+				if e := ex.valEq(u.v, args[0]); e.IsConst() {
+					if e.IsTrue() {
+						return StructV{F: []Value{u.p}}
+					}
+				} else {
+					panic(unsupported{"unique.Make of a value with symbolic content"})
+				}
+			}
+			n := ex.newNode(fn.Signature.Params().At(0).Type())
+			ex.storeNode(n, args[0])
+			p := PtrV{N: n}
+			ex.uniques = append(ex.uniques, uniqueEntry{args[0], p})
+			return StructV{F: []Value{p}}
+		}
+	}
 	switch pkg {
 	case "log/slog", "log", "github.com/lmittmann/tint":
 		return zeroResult
@@ -1012,4 +1032,9 @@ func (ex *Exec) syncMapDelete(m *MapObj, k Value) {
 			return
 		}
 	}
+}
+
+type uniqueEntry struct {
+	v Value
+	p PtrV
 }
